@@ -355,3 +355,27 @@ def engine_readbuf(tier, seed):
     for d in res['divergences']:
         d['tag'] = 'C15'
     return res
+
+
+BUFLAWS_CFG = """SPECIFICATION Spec
+CONSTANTS
+    MaxCap = %d
+    MaxArity = 3
+    LimitLos = {0, 1, 2, 3, 7}
+    LimitHis = {0, 1}
+INVARIANTS
+    PairsInside
+    TotalsAgree
+    InitExact
+    LimitRespected
+    ExportCase
+CHECK_DEADLOCK FALSE
+"""
+
+
+def engine_buflaws(tier, seed):
+    res = engine_cases('buflaws', 'MC_BufLaws', BUFLAWS_CFG % (2 if tier == 'quick' else 3), 'replay_buflaws', tier, seed,
+                       model='BufLaws')
+    for d in res['divergences']:
+        d['tag'] = 'C14'
+    return res
